@@ -60,7 +60,9 @@ def replay(case, ctx):
             imm = abs(gauss(b['e']['imm']))
             if imm:
                 s_z = max(s_z, (imm if b['e']['f'] == 'N' else 1 / imm) * zu)
-        s_v = max([abs(x) for x in phi.values()] + [0.0])
+        # natural magnitudes: expected values, source values and what the largest impedance / admittance turns them into (an exact 0 among
+        # all-zero expectations would otherwise get tolerance 0)
+        s_v, s_i0, _ = scales(br, [list(phi.values())], [[]], zu, vu)
 
         def judge(what, got, e, spec, sigk):
             """spec = [r: the true port impedance or undefined, alt: the value if ideal voltage sources were ignored]"""
@@ -98,7 +100,7 @@ def replay(case, ctx):
             if rr['d'] and gauss(rr['z']) != 0:
                 zth = gauss(rr['z']) * zu
                 isc = voc / zth
-                s_i = max(abs(isc), s_v / abs(zth))
+                s_i = max(abs(isc), s_v / abs(zth), s_i0)
                 zok = close(call(na.open_circuit_impedance, net, la, lb)[0], zth, s_z)
                 if zok:      # only meaningful where the impedance itself is right (else it repeats the finding above)
                     r.observations += 1
